@@ -8,6 +8,7 @@ pub mod c02;
 pub mod c03;
 pub mod c05;
 pub mod c06;
+pub mod c07;
 pub mod c08;
 pub mod c13;
 pub mod c14;
@@ -31,7 +32,7 @@ pub trait Property: Sync {
 }
 
 pub fn all() -> Vec<Box<dyn Property>> {
-    vec![Box::new(c01::C01), Box::new(c02::C02), Box::new(c03::C03), Box::new(c05::C05), Box::new(c06::C06), Box::new(c08::C08), Box::new(c13::C13), Box::new(c14::C14), Box::new(c15::C15)]
+    vec![Box::new(c01::C01), Box::new(c02::C02), Box::new(c03::C03), Box::new(c05::C05), Box::new(c06::C06), Box::new(c07::C07), Box::new(c08::C08), Box::new(c13::C13), Box::new(c14::C14), Box::new(c15::C15)]
 }
 
 pub fn get(id: &str) -> Option<Box<dyn Property>> {
